@@ -1,6 +1,7 @@
 import PyaModel.Core.Sexp
 import PyaModel.Spec.MiniSem
 import PyaModel.Spec.D01
+import PyaModel.Core.Composite
 /-! Line protocol driver for C01.
 in : `run <prog> <args>`   prog = `(prog (<T>…) <stmt>…)`, args = `(args <o>…)` (s-expressions, Core/Sexp.lean)
         prog may carry `(rets <T>…)` (declared return types of the helper functions) after the parameter types
@@ -8,7 +9,7 @@ in : `run <prog> <args>`   prog = `(prog (<T>…) <stmt>…)`, args = `(args <o>
         expr = `(lit o)` | `(var x)` | `(tup e…)` | `(lst e…)` | `(sub e i)` | `(ite t a b)` | `(call f e…)` | `(add a b)`
         test = `(isnone x)` | `(notnone x)` | `(not t)`
      `cls <skeleton tokens>`   (Spec/D01.lean)     `call <shared> <seqForm> <valSeq>`     `conv <isListOrTuple> <seqForm> <valSeq>`     `subl <isSub> <assignedInLoop>`     `comp <inLoop> <staleParent> <joinReset>`
-     `mem <o> <T>`
+     `mem <o> <T>`     `creg <k1.k2…>` (the prefixes `_add_composite` records the composite under; `-` = the root)
 out: run: `I <path>=<T>;… | F <flags> | X <path>=<o>;… | O <outcome> | A <argsOk>`  (path = indices joined by `.`, root first)
      cls: the classes, comma separated, `-` if none;   mem: `1`/`0`
 -/
@@ -161,8 +162,14 @@ partial def pProg (ts : Toks) (acc : List Sk) : Option (List Sk) :=
     | some (s, r) => pProg r (s :: acc)
     | none => none
 
+def showCPath (p : CPath) : String := if p.isEmpty then "-" else ".".intercalate (p.map toString)
+
 def handle (line : String) : String :=
-  if line.startsWith "cls " || line == "cls" then
+  if line.startsWith "creg " then
+    match (((line.drop 5).toString.splitOn ".").filter (· != "")).mapM String.toNat? with
+    | some c => ";".intercalate ((recordedUnder addCompositeLo addCompositeHiOff c).map showCPath)
+    | none => "bad-op"
+  else if line.startsWith "cls " || line == "cls" then
     match pProg (((line.drop 3).toString.splitOn " ").filter (· != "")) [] with
     | some prog => (match d01Classes prog with | [] => "-" | cs => ",".intercalate cs)
     | none => "bad-op"
